@@ -1,6 +1,7 @@
 package mon
 
 import (
+	"bytes"
 	"fmt"
 	"io"
 	"log"
@@ -125,7 +126,8 @@ func c09CondSettings(cd stackage.Condition, r *core.Rng) {
 func c09Pools() *Pools {
 	return &Pools{
 		Any: []any{"x", nil, 7, stackage.Or().Push("p"), stackage.Cond("k", stackage.Eq, "v"), []any{"AND", "a"}, []string{"<", ">"}, rune('|'),
-			stackage.LogLevel(8), "stdout", AStack(stackage.And().Push("q"))},
+			stackage.LogLevel(8), "stdout", AStack(stackage.And().Push("q")),
+			stackage.List().SetNoNesting(true).Push("picky destination"), io.Writer(&bytes.Buffer{}), log.New(NullWriter{}, "app", 0)},
 		Ints: []int{0, -1, 1, 2},
 		Strs: []string{"x", "", "_random"},
 	}
@@ -376,6 +378,7 @@ func c09Foreign(c *core.Ctx, r *core.Rng) {
 	}
 	desc := map[string]any{"role": role, "read_only": roKind + " " + ro.desc, "form": formName, "call": cs.Method, "receiver": w.desc}
 	s0 := ro.take()
+	w0 := loggerWriterID(roVal)
 	_, pan, msg, site := Invoke(w.recv, cs)
 	if pan && strings.Contains(msg, userPanicText) {
 		c.Count("calls.user-closure-panicked")
@@ -388,6 +391,10 @@ func c09Foreign(c *core.Ctx, r *core.Rng) {
 	c.Count("foreign." + role)
 	// the flag is per instance: writable Stacks held BY the read-only instance may legitimately be changed through
 	// another handle, so only the read-only instance itself is compared here (its record, its slots / expression by identity)
+	if w1 := loggerWriterID(roVal); w1 != w0 {
+		c.Violatef("foreign-changed:"+roKind+":logger-output", desc, "%s on another instance redirected the read-only %s's logger: it wrote to %s before, to %s now (same *log.Logger object)", cs.Method, roKind, w0, w1)
+		return
+	}
 	if d := Diff(s0, ro.take(), DiffOpts{Shallow: true, Raw: true}); d != "" {
 		c.Violatef("changed-as-"+role+":"+cs.Method, desc, "%s on another instance changed the read-only %s (%s, %s): %s", cs.Method, roKind, role, formName, d)
 		return
@@ -453,6 +460,25 @@ func c09Reassert(c *core.Ctx, r *core.Rng) {
 	if d := Diff(before, after, DiffOpts{}); d != "" {
 		c.Violatef("changed-while-read-only-was-re-asserted:"+desc["receiver"].(string), desc, "the instance was read-only throughout (the flag was only ever set again, %d times), yet it changed: %s", rounds, d)
 	}
+}
+
+// loggerWriterID identifies where an instance's logger currently writes to (type and, for pointers, address): the
+// *log.Logger may be shared between instances, so "the logger stays as it was" includes its destination.
+func loggerWriterID(x any) string {
+	var l *log.Logger
+	if s, ok := AsStack(x); ok && s.IsInit() {
+		l = s.Logger()
+	} else if cd, ok := AsCond(x); ok && cd.IsInit() {
+		l = cd.Logger()
+	}
+	if l == nil {
+		return "no logger"
+	}
+	w := l.Writer()
+	if rv := reflect.ValueOf(w); rv.IsValid() && rv.Kind() == reflect.Ptr {
+		return fmt.Sprintf("%T@%#x", w, rv.Pointer())
+	}
+	return fmt.Sprintf("%T", w)
 }
 
 func c09Run(c *core.Ctx, idx int) {
